@@ -75,6 +75,8 @@ func ruleC03(p *Program, r *Run) {
 			if s, ok := constString(p.Parser.TypesInfo, kv.Key); ok {
 				parserKinds[s] = true
 			}
+		} else if s, ok := constString(p.Parser.TypesInfo, el); ok {
+			parserKinds[s] = true // the table kept as a list of names
 		}
 	}
 	var all []string
@@ -94,18 +96,54 @@ func ruleC03(p *Program, r *Run) {
 
 	// the flavor variable: the local string of the join case that takes the operator's kind= name (X.Flavor.Name)
 	var flavor types.Object
+	accessorDefault := "" // the kind an accessor returns for a join without kind=
 	var flavorSw ast.Node = joinCase
 	inspectRegion(func(n ast.Node) bool {
 		as, ok := n.(*ast.AssignStmt)
 		if !ok || len(as.Lhs) != 1 || len(as.Rhs) != 1 || flavor != nil {
 			return true
 		}
-		sel, ok := ast.Unparen(as.Rhs[0]).(*ast.SelectorExpr)
-		if !ok || sel.Sel.Name != "Name" {
-			return true
+		isKindName := func(x ast.Expr) bool {
+			sel, ok := ast.Unparen(x).(*ast.SelectorExpr)
+			if !ok || sel.Sel.Name != "Name" {
+				return false
+			}
+			f := selField(info, sel.X)
+			return f != nil && f.Name() == "Flavor"
 		}
-		if f := selField(info, sel.X); f == nil || f.Name() != "Flavor" {
-			return true
+		if !isKindName(as.Rhs[0]) {
+			// an accessor: a module function that returns X.Flavor.Name, or a constant when there is no kind=
+			call, isCall := ast.Unparen(as.Rhs[0]).(*ast.CallExpr)
+			if !isCall {
+				return true
+			}
+			decl, _ := p.DeclOf(Callee(info, call))
+			if decl == nil || decl.Body == nil {
+				return true
+			}
+			names, consts := 0, map[string]bool{}
+			other := false
+			ast.Inspect(decl.Body, func(m ast.Node) bool {
+				if _, nested := m.(*ast.FuncLit); nested {
+					return false
+				}
+				if ret, ok := m.(*ast.ReturnStmt); ok && len(ret.Results) == 1 {
+					if isKindName(ret.Results[0]) {
+						names++
+					} else if cs, ok := constString(info, ret.Results[0]); ok {
+						consts[cs] = true
+					} else {
+						other = true
+					}
+				}
+				return true
+			})
+			if names == 0 || other || len(consts) > 1 {
+				return true
+			}
+			for cs := range consts {
+				accessorDefault = cs
+			}
 		}
 		if o := objOf(info, as.Lhs[0]); o != nil {
 			if b, ok := o.Type().Underlying().(*types.Basic); ok && b.Kind() == types.String {
@@ -134,6 +172,9 @@ func ruleC03(p *Program, r *Run) {
 		}
 		return true
 	})
+	if defKind == "" {
+		defKind = accessorDefault
+	}
 	r.Check(defKind == "innerunique", "C03/kinds", fn+" default join kind", p.Pos(joinCase.Pos()), "a join without kind= is innerunique", fmt.Sprintf("the default join kind is %q, documented: innerunique", defKind))
 
 	// ---- what is written for each kind (derived grammar, path facts)
